@@ -32,3 +32,11 @@ Theorem C15_teardown_releases_everything : forall a,
   sumw wC (close_events a) = - Z.of_nat (length (a_chans a)).
 Proof. exact close_events_w. Qed.
 Print Assumptions C15_teardown_releases_everything.
+
+(* ---------- history level ---------- *)
+From Turn Require Import Common RelayCheck RelayProps RelayTrace.
+(* the predicate evaluated on the implementation's observed traces (chk_C15: after every step Created minus Deleted
+   callbacks so far = what the listing shows) holds on every trace of the model *)
+Theorem C15_predicate_holds_on_every_model_trace : forall cfg ep h, chk_C15 (model_case cfg ep h) = true.
+Proof. exact chk_C15_on_model. Qed.
+Print Assumptions C15_predicate_holds_on_every_model_trace.
